@@ -407,6 +407,30 @@ def _mon_c02_engine(case, verdict, chk):
             return
 
 
+def mon_c02_deploy(case, verdict, chk):
+    """deploy-time expressions: a step with its own `deploy` section is deployed with the configuration its expressions denote
+    over THIS run's input and producers (the scripted deployer records the `note` it was created with)."""
+    steps = {s["id"]: s for s in case["wf"]["steps"]}
+    for e in case.get("log", []):
+        if e["ev"] not in ("deploy", "deploy-fail") or not str(e.get("out", "")).startswith("note:"):
+            continue
+        s = steps.get(e["src"])
+        if s is None or "deploy" not in s.get("fields", {}):
+            continue
+        chk.hist["deploy-expression-checked"] = chk.hist.get("deploy-expression-checked", 0) + 1
+        try:
+            exp = resolve(s["fields"]["deploy"], produced_at(case, e["seq"]))
+        except (EvalError, Unsupported):
+            continue
+        want = exp.get("note") if isinstance(exp, dict) else None
+        got = e["out"][len("note:"):]
+        if want is not None and str(want) != got:
+            chk.violation("C02:wrong-deploy-value", "step %s was deployed with the configuration note %r, its deploy expressions denote %r%s"
+                          % (s["id"], got, want, " (second run of a prepared workflow; the first run's input: %s)" % str((case.get("warm") or {}).get("input"))[:200] if case.get("warm") else ""),
+                          {"kind": "impl-counterexample", "case": slim(case), "step": s["id"], "got": got, "expected": str(want)})
+            return
+
+
 def ev_path(p, data):
     v = data
     for k in p:
